@@ -356,18 +356,6 @@ impl Selector {
             || self.rel_of.as_deref().is_some_and(|(_, s)| s.has_backref())
     }
 
-    fn add_root_ancestor(&mut self, ancestor: Self) {
-        if let Some(rel) = self.rel_of.as_mut() {
-            if rel.1.is_local_empty() && !rel.1.is_complex() {
-                rel.1 = ancestor;
-            } else {
-                rel.1.add_root_ancestor(ancestor);
-            }
-        } else {
-            self.rel_of = Some(Box::new((RelKind::Ancestor, ancestor)));
-        }
-    }
-
     fn with_rel_of(mut self, rel: RelKind, other: Self) -> Vec<Self> {
         if self.rel_of.is_some() {
             self.unify(Self {
@@ -429,21 +417,25 @@ impl Selector {
     /// Internal (the api is [`TryFrom`]).
     pub(super) fn _try_from_value(v: &Value) -> Result<Self, BadSelector0> {
         match v {
-            Value::List(list, None | Some(ListSeparator::Space), _) => list
-                .iter()
-                .try_fold(None, |a, v| {
-                    let mut s = match v {
-                        Value::Literal(s) => ParseError::check(
-                            parser::selector(input_span(s.value()).borrow()),
-                        )?,
-                        _ => return Err(BadSelector0::Value),
-                    };
-                    if let Some(a) = a {
-                        s.add_root_ancestor(a);
-                    }
-                    Ok(Some(s))
-                })
-                .map(Option::unwrap_or_default),
+            Value::List(list, None | Some(ListSeparator::Space), _) => {
+                // The parts of a complex selector (compound selectors
+                // and combinators) as sass returns them: read them
+                // as the text they print as.
+                let text = list
+                    .iter()
+                    .map(|v| match v {
+                        Value::Literal(s) => Ok(s.value()),
+                        _ => Err(BadSelector0::Value),
+                    })
+                    .collect::<Result<Vec<_>, _>>()?
+                    .join(" ");
+                if text.is_empty() {
+                    Ok(Self::default())
+                } else {
+                    let span = input_span(text);
+                    Ok(ParseError::check(parser::selector(span.borrow()))?)
+                }
+            }
             Value::Literal(s) => {
                 if s.value().is_empty() {
                     Ok(Self::default())
